@@ -140,6 +140,13 @@ func (g *seqGen) name() string {
 	if g.cfg.Profile == "many" && p < 75 {
 		return fmt.Sprintf("m%d", g.r.Intn(400))
 	}
+	if g.cfg.Profile == "limits" && p < 60 {
+		n := g.nmax + []int{-2, -1, 0, 0, 1, 2, 143}[g.r.Intn(7)]
+		if n < 1 {
+			n = 1
+		}
+		return fmt.Sprintf("%02d", g.r.Intn(30)) + strings.Repeat("n", n-2)
+	}
 	if g.cfg.Profile == "longnames" && p < 85 {
 		n := []int{100, 105, 111, 112, 112}[g.r.Intn(5)]
 		if g.cfg.Avoid["name-at-max"] && n >= g.nmax {
@@ -219,6 +226,9 @@ func (g *seqGen) offset(big bool) (int, bool, uint64) {
 
 func (g *seqGen) count() int {
 	const B = 4096
+	if g.cfg.Profile == "limits" && g.r.Intn(3) == 0 {
+		return g.wtmax + []int{-4096, -4095, -1, 0, 1, 4096, 16 * 4096}[g.r.Intn(7)]
+	}
 	if g.cfg.Profile == "crash" || g.cfg.Profile == "crashun" {
 		return []int{0, 1, 100, B - 1, B, B + 1, 2 * B, 3*B + 11, 5 * B}[g.r.Intn(9)]
 	}
@@ -340,6 +350,8 @@ func (g *seqGen) step() {
 	case "crash", "crashbig":
 		w["WRITE"], w["CREATE"], w["MKDIR"], w["SYMLINK"], w["REMOVE"], w["RMDIR"], w["RENAME"], w["SETATTR"], w["COMMIT"] = 26, 12, 5, 3, 9, 3, 8, 9, 6
 		w["READ"], w["GETATTR"], w["LOOKUP"], w["READDIR"], w["READDIRPLUS"], w["ENUM"] = 3, 1, 2, 0, 0, 0
+	case "limits":
+		w["WRITE"], w["SETATTR"], w["READ"], w["CREATE"], w["MKDIR"], w["SYMLINK"], w["RENAME"], w["REMOVE"], w["LOOKUP"] = 26, 14, 10, 12, 4, 4, 8, 5, 6
 	case "longnames":
 		w["CREATE"], w["MKDIR"], w["SYMLINK"], w["REMOVE"], w["RENAME"], w["LOOKUP"] = 40, 2, 3, 6, 8, 14
 		w["WRITE"], w["READ"], w["SETATTR"] = 3, 2, 1
@@ -421,11 +433,11 @@ func (g *seqGen) step() {
 	case "WRITE":
 		c.Fh = g.anyHandle(1)
 		o := g.byFh(c.Fh)
-		big := g.cfg.Profile != "recycle" && g.r.Intn(12) == 0
+		big := g.cfg.Profile != "recycle" && (g.r.Intn(12) == 0 || (g.cfg.Profile == "limits" && g.r.Intn(3) == 0))
 		c.Off, c.OffSat, c.RawOff = g.offset(big)
 		c.Cnt = g.count()
 		if big && c.Cnt > 8192 {
-			c.Cnt = 100
+			c.Cnt = []int{100, 1, 2, 4096, 4097}[g.r.Intn(5)]
 		}
 		c.Data = g.payload(c.Cnt)
 		c.DLen = c.Cnt
